@@ -777,6 +777,8 @@ def evaluate(case, meta, res):
                   "per-case CPU-time alarm (%s s)" % CASE_SECS)
             return "hang", viol, obsv
         if res.kind == "asan":
+            if "sized_second_call" in (res.report or ""):
+                detail = meta.get("detail2", detail)      # the retry with exactly the reported size crashed
             key = U.crash_key(res, kfn, detail, meta.get("site", True))
             if "stack-overflow" in key and meta.get("rel") == "deep":
                 obsv.append(key)
@@ -943,6 +945,7 @@ def worker(job):
         part["observations"][k + "@" + vname.split("-")[0]] = part["observations"].get(k + "@" + vname.split("-")[0], 0) + n
     if len(results) != len(cases):
         part["inconclusive"].append("%s/%s: %d results for %d cases" % (vname, fam, len(results), len(cases)))
+    best = {}                                   # key -> (case, witness) with the shortest case seen here
     for (case, meta), res in zip(mine, results):
         part["evaluations"] += 1
         fn = meta["fn"]
@@ -957,12 +960,16 @@ def worker(job):
         for o in obsv:
             part["observations"][o] = part["observations"].get(o, 0) + 1
         for key, exp, obs_ in viol:
-            part["violations"].append((key, {
-                "variant": vname, "build": spec, "family": fam, "fn": fn, "meta": meta, "case": case.hex(),
-                "seed": common.seed(), "expected": exp, "observed": obs_}))
+            common.part_count(part, "vc:" + key)
+            cur = best.get(key)
+            if cur is None or len(case) < len(cur[0]):
+                best[key] = (case, {
+                    "variant": vname, "build": spec, "family": fam, "fn": fn, "meta": meta, "case": case.hex(),
+                    "seed": common.seed(), "expected": exp, "observed": obs_})
         if len(part["samples"]) < 2 and (part["evaluations"] % 97 == 5 or viol):
             part["samples"].append({"fn": fn, "class": [meta["lcls"], meta["rel"]], "outcome": outcome,
                                     "variant": vname, "case_hex": case.hex()[:160]})
+    part["violations"] = [(k, w) for k, (c, w) in best.items()]
     return part
 
 
@@ -1005,8 +1012,15 @@ def run(tier):
                 jobs.append((vname, specs[vname], exe, fam, sh, nsh, tier))
     # big families first
     jobs.sort(key=lambda j: -dict((n, s) for n, _, s in FAMILIES)[j[3]])
+    bestw = {}
     for part in common.parallel(worker, jobs):
+        for k, w in part["violations"]:
+            if k not in bestw or len(w["case"]) < len(bestw[k]["case"]):
+                bestw[k] = w
+        part["violations"] = []
         report.merge(part)
+    for k, w in bestw.items():                  # shortest witness per key, count = number of failing cases
+        report.violations[k] = {"count": report.extra.pop("vc:" + k, 1), "witness": w}
     per_fn, outcomes = {}, {}
     for k in list(report.extra):
         if k.startswith("fn:"):
